@@ -13,6 +13,8 @@ COMMON_NOTE = ('Trusted: Coq 8.16.1 kernel (vm_compute for finite sweeps, no nat
 
 ITEM_NOTE = ("threaded code: the real classes run unmodified under a deterministic scheduler whose stand-ins for Lock/RLock, queue.Queue, ThreadPoolExecutor, Thread, socket, time yield before every shared action and after every lock release; one LTS step = one lock region / queue operation / adapter-call boundary (data-race freedom => region atomicity under the GIL is assumed and exercised); schedule enumeration is exhaustive only within the stated preemption bound; eventual quiescence (termination) is not proved; CPython memory management is outside the model (retention is stated on the library's own data structures).")
 
+SHELL_NOTE = ("threaded code as for C01 (deterministic scheduler, stand-ins yielding before every shared action); ThreadPoolExecutor(n) modelled as a FIFO of jobs run once each by one of n workers that stores a job's exception, shutdown(wait) returning after all accepted jobs; request lines are abstracted to classes (decoding is C06/C09, reply contents C07/C08); a Data server closed by the application while SUB/USB still arrive (submit raising inside add_task) is not modelled and counted as unmodelled; socket.close() waking a blocked recv and real process exit are assumptions.")
+
 CLAIMS = {
     'C01': dict(
         text='Coq theorems over the per-item LTS Model/Item.v (one step = one lock region / queue put / adapter-call boundary; any number of dequeuer jobs, adapter threads, requests, steps): c01_at_most_once, c01_exactly_once_at_rest, '
@@ -36,11 +38,26 @@ CLAIMS = {
              'c17_eos_tag, c17_query_error_reported, c17_none_for_skipped (Props/C17.v) over the per-item LTS; same correspondence machinery as C01 with per-item availability in {True, False, raises}.',
         ref='6 C17', note=ITEM_NOTE,
         tech='Coq proof (inductive invariant + history monitor over an LTS) + scheduler-driven correspondence of the real code + oracle'),
+    'C18': dict(
+        text='Coq theorems c18_pool_size (configured size; CPU count when 0, negative or None; 4 when unavailable), c18_on_workers_only, c18_inside_jobs, c18_non_blocking (in every state with a worker inside an adapter call the reader, the writer and every idle worker with a queued job can step), '
+             'c18_pool_of_one (calls never overlap, jobs complete in arrival order) over Model/Shell.v (Props/C18.v). Correspondence as for C04, with the executing thread of every adapter call recorded, pool sizes None,-3,0,1,2,3 with cpu=3, and scenarios in which an adapter call '
+             'is held until a later request has been read, answered and written (Metadata and Data).',
+        ref='6 C18',
+        note=SHELL_NOTE,
+        tech='Coq proof (invariants and enabledness lemmas over a connection-level LTS, pool sizing by arithmetic) + scheduler-driven correspondence + oracle'),
     'C19': dict(
         text='Coq theorems c19_clean_after_unsubscription, c19_no_entry_no_reference, c19_events_dropped, c19_live_after_subscription, c19_never_requested, c19_counters_at_rest, c19_bounded (Props/C19.v) over the per-item LTS, '
              'covering in particular an arrival between the dequeuer exit and its bookkeeping update (two lock regions of the same lock, all interleavings); the final per-item state of the real objects is compared with the model on every quiescent run.',
         ref='6 C19', note=ITEM_NOTE,
         tech='Coq proof (counter / generation invariants over an LTS) + scheduler-driven correspondence incl. end-state comparison + oracle'),
+    'C04': dict(
+        text='Coq theorems over the connection-level LTS Model/Shell.v (starter, reader, writer, n pool workers, application and adapter threads; any interleaving, chunking, adapter outcome, fault): '
+             'c04_pool_discipline (monitor pool_ok: every job started once in FIFO order; a Metadata job = adapter calls, then EXACTLY ONE of its reply — with its own id — or one handler notification, then its end), '
+             'c04_reply_at_most_once, c04_all_jobs_end, c04_one_outcome_each, c04_isolated (Props/C04.v). The real MetadataProviderServer runs under the deterministic scheduler on generated sessions (all 14 methods, valid / wrong-typed / raising at the k-th adapter call, '
+             'malformed and unknown lines, pool None,-3,0,1,2,3, handler configurations, faults, blocked adapter calls); every step is replayed through the model (labels accepted, invariants and monitors along the trace, final state) and the property text is the oracle (reply count and status, adapter call sequence per request, handler count).',
+        ref='6 C04',
+        note=SHELL_NOTE,
+        tech='Coq proof (inductive invariants and history monitors over a connection-level LTS) + scheduler-driven correspondence of the real server + oracle'),
     'C05': dict(
         text='Coq theorems c05_alphabet / c05_sep_free / c05_roundtrip / c05_special_only / c05_injective / c05_alt (Props/C05.v) hold for '
              'every list of Unicode scalar values of any length (UTF-8 model + quote_plus model, per-byte facts closed by vm_compute over all '
